@@ -20,7 +20,7 @@ theorem mode_names : parseSignatureValidationMode "none" = some .none ∧
 /-- First load (first CDP fetch, background first load, first half of provisioning): succeeds exactly when a parseable
 document is served and it is acceptable under the policy against the candidates of that intake. -/
 theorem first_load_accepts_iff (s : State) (loc : Loc) (e : Entry) (cands : List Signer)
-    (hopen : (e.closed && s.cfg.disk) = false) :
+    (hopen : loadRefused s e = false) :
     (loadCRL s loc e cands).2 = .ok ↔ ∃ d, servedAt s loc = .doc d ∧ acceptable s.cfg.sigMode d cands = true := by
   unfold loadCRL
   simp only [hopen, Bool.false_eq_true, ↓reduceIte, firstLoadHonoursMode]
@@ -47,7 +47,7 @@ theorem first_load_accepts_iff (s : State) (loc : Loc) (e : Entry) (cands : List
 /-- Refresh (periodic tick, second half of provisioning, refresh after restart): same predicate, against the given
 chains or else the persisted signer certificate. -/
 theorem refresh_accepts_iff (s : State) (loc : Loc) (e : Entry) (nc : Option (List Signer))
-    (hopen : (e.closed && s.cfg.disk) = false) (hlocs : e.store.hasLocs = true) :
+    (hopen : refreshRefused s e = false) (hlocs : e.store.hasLocs = true) :
     (updateCrlEntry s loc e nc).2 = .ok ↔
       ∃ d, servedAt s loc = .doc d ∧ acceptable s.cfg.sigMode d (refreshCands e nc) = true := by
   unfold updateCrlEntry
@@ -75,7 +75,7 @@ theorem refresh_accepts_iff (s : State) (loc : Loc) (e : Entry) (nc : Option (Li
 /-- Under `verify_log` and `none` a parseable CRL is accepted and keeps being refreshed even when its signer cannot be verified. -/
 theorem parseable_keeps_refreshing (s : State) (loc : Loc) (e : Entry) (nc : Option (List Signer)) (d : DocA)
     (hm : s.cfg.sigMode = .none ∨ s.cfg.sigMode = .verifyLog)
-    (hopen : (e.closed && s.cfg.disk) = false) (hlocs : e.store.hasLocs = true) (hsv : servedAt s loc = .doc d) :
+    (hopen : refreshRefused s e = false) (hlocs : e.store.hasLocs = true) (hsv : servedAt s loc = .doc d) :
     (updateCrlEntry s loc e nc).2 = .ok := by
   rw [refresh_accepts_iff s loc e nc hopen hlocs]
   refine ⟨d, hsv, ?_⟩
